@@ -43,6 +43,7 @@ type Case struct {
 	Seg       int64
 	Faults    []fault // one faulty sync each, then an honest sync
 	Entries   bool    // entries chain instead of ads
+	Trusted   bool    // the destination link system has TrustedStorage set (local reads are not re-hashed; fetched bytes still must be)
 }
 
 func genFault(t *rapid.T, n int) fault {
@@ -58,6 +59,7 @@ func genCase(t *rapid.T) Case {
 	c := Case{N: rapid.IntRange(1, 5).Draw(t, "n"), Hash: rapid.IntRange(0, len(hashes)-1).Draw(t, "hash"), Discovery: rapid.Bool().Draw(t, "discovery")}
 	c.Seg = rapid.SampledFrom([]int64{-1, -1, 1, 2}).Draw(t, "seg")
 	c.Entries = rapid.IntRange(0, 3).Draw(t, "entries") == 0
+	c.Trusted = rapid.IntRange(0, 3).Draw(t, "trusted") == 0
 	nf := rapid.IntRange(1, 3).Draw(t, "nfaults")
 	for i := 0; i < nf; i++ {
 		c.Faults = append(c.Faults, genFault(t, c.N))
@@ -89,7 +91,7 @@ func served(f fault, honest []byte, bodies [][]byte) []byte {
 func runCase(t *testing.T) func(Case) pbt.Result {
 	return func(c Case) (res pbt.Result) {
 		h := hashes[c.Hash]
-		res.Classes = []string{"hash=" + h.Name, fmt.Sprintf("discovery=%v", c.Discovery)}
+		res.Classes = []string{"hash=" + h.Name, fmt.Sprintf("discovery=%v", c.Discovery), fmt.Sprintf("trustedstorage=%v", c.Trusted)}
 		defer func() {
 			if p := recover(); p != nil {
 				res.Fail = fmt.Sprintf("panic: %v", p)
@@ -98,6 +100,7 @@ func runCase(t *testing.T) func(Case) pbt.Result {
 		synctest.Test(t, func(t *testing.T) {
 			w := world.New()
 			defer w.Close()
+			w.TrustedStorage = c.Trusted
 			p := w.AddPublisher(0, c.Discovery, "")
 			p.SetHashFunc(h.Code, h.Len)
 			var chain []cid.Cid
@@ -241,7 +244,7 @@ func runCase(t *testing.T) func(Case) pbt.Result {
 	}
 }
 
-const rule = "chain of 1..5 ads or entry chunks whose CIDs use one of 14 multihash functions / digest lengths registered in the binary (sha2-256 full and truncated to 16/20, sha2-512 full and /32, sha1, sha3-256/512, keccak-256, blake3, blake2b-256, dbl-sha2-256, murmur3, identity); 1..3 faulty syncs, each with one body fault (single bit flip, truncation at any length with honest or dishonest Content-Length, 1..64 appended bytes, substitution by another valid block of the chain, empty body, 3 MiB oversized body) at a drawn request ordinal, then an honest sync; plain and discovery transport, segmented or not; oracle after every sync: independent audit of the destination store (recompute the multihash named in each key over the stored value), hook log only holds audited chain blocks, nothing foreign stored, a served body that differs from the honest one fails the sync (unless the client re-requested the block and got the honest body), failed syncs do not move latest-sync nor emit events, and after the honest sync the store is exactly the chain. Non-trivial: the faulty response was actually requested and its bytes differ; distinct by (hash function, fault kind, request ordinal, position)."
+const rule = "destination link system with or without TrustedStorage; chain of 1..5 ads or entry chunks whose CIDs use one of 14 multihash functions / digest lengths registered in the binary (sha2-256 full and truncated to 16/20, sha2-512 full and /32, sha1, sha3-256/512, keccak-256, blake3, blake2b-256, dbl-sha2-256, murmur3, identity); 1..3 faulty syncs, each with one body fault (single bit flip, truncation at any length with honest or dishonest Content-Length, 1..64 appended bytes, substitution by another valid block of the chain, empty body, 3 MiB oversized body) at a drawn request ordinal, then an honest sync; plain and discovery transport, segmented or not; oracle after every sync: independent audit of the destination store (recompute the multihash named in each key over the stored value), hook log only holds audited chain blocks, nothing foreign stored, a served body that differs from the honest one fails the sync (unless the client re-requested the block and got the honest body), failed syncs do not move latest-sync nor emit events, and after the honest sync the store is exactly the chain. Non-trivial: the faulty response was actually requested and its bytes differ; distinct by (hash function, fault kind, request ordinal, position)."
 
 func TestC02_Random(t *testing.T) {
 	pbt.Run(t, pbt.Config{Prop: "C02", Unit: "TestC02_Random", Rule: rule, TrackCurrent: true}, genCase, runCase(t))
